@@ -628,7 +628,17 @@ func (i *interpreter) choosePerm(m *omap) []int {
 		}
 	}
 	if len(live) > i.mapOrderMax {
-		return nil
+		// too many entries for all permutations: case-split between the
+		// insertion order and its reverse (every pair of entries is visited
+		// in both relative orders, which is what an order dependence needs)
+		i.permCnt++
+		if i.path.choice(fmt.Sprintf("maporder%d.rev", i.permCnt), 2) == 0 {
+			return nil
+		}
+		for a, b := 0, len(live)-1; a < b; a, b = a+1, b-1 {
+			live[a], live[b] = live[b], live[a]
+		}
+		return live
 	}
 	i.permCnt++
 	var perm []int
